@@ -85,14 +85,17 @@ def main(argv):
                 with common.environment(rep.get("env")):
                     mod.replay(ctx, rep["case"])
         else:
-            # corpus first
             cdir = os.path.join(VERIF, "corpus", pid)
-            if os.path.isdir(cdir):
-                for f in sorted(os.listdir(cdir)):
-                    if f.endswith(".json"):
-                        mod.replay(ctx, json.load(open(os.path.join(cdir, f)))["case"])
-                        ctx.count("corpus_cases")
             try:
+                # corpus first (inside the same guard as run: an exception escaping from /repo code while a stored case is
+                # replayed is a finding with that case, not a harness error)
+                if os.path.isdir(cdir):
+                    for f in sorted(os.listdir(cdir)):
+                        if f.endswith(".json"):
+                            ccase = json.load(open(os.path.join(cdir, f)))["case"]
+                            ctx.current_case = ccase
+                            mod.replay(ctx, ccase)
+                            ctx.count("corpus_cases")
                 mod.run(ctx)
                 # the same property under other process-global environments of the caller (default dtype, autograd mode, cwd):
                 # the corpus again, and the module's own environment cases if it has any
